@@ -10,7 +10,8 @@ from vlib.values_for import values_for
 PID = "C17"
 RULE = (
     "case = pair of element-tree recipes: identical (two independent builds), one-point mutant "
-    "(keyword added/dropped/changed, literal swapped for a bool/number lookalike, property "
+    "(b built from a's own child element OBJECTS under property wrappers differing in required/source; "
+    "keyword added/dropped/changed, literal swapped for a bool/number lookalike, property "
     "required/source/element changed or dropped, element class changed, class renamed, composition "
     "reordered), or the tree vs parse_element(its schema); x 6-10 values aimed at both schemas; "
     "checks: a == a, (a == b) == (b == a), independent builds equal, and a == b implies same verdict "
@@ -32,6 +33,12 @@ observe.register_formats()
 def cases(draw):
     recipe = draw(R.recipes(R.RCfg(depth=2)))
     mode = draw(st.sampled_from(["same", "mutant", "mutant", "mutant", "parsed"]))
+    if recipe.get("props") and recipe["kind"] in ("Element", "Object") and draw(st.integers(0, 2)) == 0:
+        # b re-uses a's element OBJECTS under property wrappers that differ in one attribute
+        values = draw(values_for(R.to_schema(recipe), 4, 6))
+        return {"mode": "shared", "a": recipe, "values": values,
+                "prop": draw(st.integers(0, len(recipe["props"]) - 1)),
+                "change": draw(st.sampled_from(["required", "source"]))}
     case = {"mode": mode, "a": recipe}
     schema_a = R.to_schema(recipe)
     values = draw(values_for(schema_a, 4, 6))
@@ -80,8 +87,35 @@ def alpha(doc):
     return walk(doc)
 
 
+def build_shared(case, a):
+    from statham.schema.constants import NotPassed
+    from statham.schema.elements import Element, Object
+    from statham.schema.property import Property
+
+    target = case["a"]["props"][case["prop"]]["name"]
+    props = {}
+    for name, prop in a.properties.items():
+        required, source = prop.required, prop.source
+        if name == target:
+            if case["change"] == "required":
+                required = not required
+            else:
+                source = (source if source is not None else name) + "_x"
+        props[name] = Property(prop.element, required=required, source=source)
+    node = case["a"]
+    kw = {k: copy.deepcopy(v) for k, v in node.get("kw", {}).items()}
+    sub = {}
+    for k in node.get("sub", {}):
+        sub[k] = getattr(a, k)  # the very same objects
+    if node["kind"] == "Object":
+        return Object.inline(node["name"], properties=props, **kw, **sub)
+    return Element(properties=props, **kw, **sub)
+
+
 def build_pair(case):
     a = R.build(case["a"])
+    if case["mode"] == "shared":
+        return a, build_shared(case, a)
     if case["mode"] == "same":
         b = R.build(case["a"])
     elif case["mode"] == "mutant":
@@ -107,6 +141,9 @@ def predicate(case, stats):
         fails.append({"sub": "eq", "kind": "not-reflexive"})
     if bool(ab) != bool(ba):
         fails.append({"sub": "eq", "kind": "not-symmetric", "detail": [str(ab), str(ba)]})
+    if case["mode"] == "shared" and (ab or ba):
+        fails.append({"sub": "eq", "kind": "equal-although-a-property-attribute-differs", "change": case["change"],
+                      "property": case["a"]["props"][case["prop"]]["name"]})
     if case["mode"] == "same" and not (ab and ba):
         fails.append({"sub": "eq", "kind": "independent-builds-unequal"})
     equal = bool(ab) and bool(ba)
